@@ -54,8 +54,46 @@ func ensureAccounts(n int) {
 // ------------------------------------------------------------------ fakes
 
 type fakeMembership struct {
-	mu sync.Mutex
-	m  map[string]bool // "space|account"
+	mu   sync.Mutex
+	m    map[string]bool // "space|account"
+	trap *lookupTrap
+}
+
+// lookupTrap places an action at the first lookup the service makes on behalf of one stream while one frame of that
+// stream is being handled (Membership.CheckMember carries the stream id in its ctx, Relay.IsResponsibleNode the peer
+// id). The lookups themselves answer from the tables as always: no behaviour is injected other than the schedule.
+type lookupTrap struct {
+	mu    sync.Mutex
+	armed bool
+	sid   uint32
+	act   func()
+	fired bool
+}
+
+func (t *lookupTrap) hit(sid uint32) {
+	var act func()
+	t.mu.Lock()
+	if t.armed && t.sid == sid {
+		t.armed, t.fired, act = false, true, t.act
+	}
+	t.mu.Unlock()
+	if act != nil {
+		act()
+	}
+}
+
+func (t *lookupTrap) arm(sid int, act func()) {
+	t.mu.Lock()
+	t.armed, t.fired, t.sid, t.act = true, false, uint32(sid), act
+	t.mu.Unlock()
+}
+
+func (t *lookupTrap) disarm() (fired bool) {
+	t.mu.Lock()
+	fired = t.fired
+	t.armed, t.fired, t.act = false, false, nil
+	t.mu.Unlock()
+	return
 }
 
 func (f *fakeMembership) set(space, acct string, b bool) {
@@ -68,7 +106,10 @@ func (f *fakeMembership) is(space, acct string) bool {
 	defer f.mu.Unlock()
 	return f.m[space+"|"+acct]
 }
-func (f *fakeMembership) CheckMember(_ context.Context, spaceId string, identity crypto.PubKey) error {
+func (f *fakeMembership) CheckMember(ctx context.Context, spaceId string, identity crypto.PubKey) error {
+	if id, ok := streampool.CtxStreamId(ctx); ok && f.trap != nil {
+		f.trap.hit(id)
+	}
 	if f.is(spaceId, identity.Account()) {
 		return nil
 	}
@@ -79,10 +120,17 @@ type fakeRelay struct {
 	resp     map[string]bool
 	nodes    map[string]bool
 	forwards atomic.Int32
+	trap     *lookupTrap
 }
 
-func (f *fakeRelay) IsResponsible(spaceId string) bool          { return f.resp[spaceId] }
-func (f *fakeRelay) IsResponsibleNode(_, peerId string) bool    { return f.nodes[peerId] }
+func (f *fakeRelay) IsResponsible(spaceId string) bool { return f.resp[spaceId] }
+func (f *fakeRelay) IsResponsibleNode(_, peerId string) bool {
+	var sid uint32
+	if _, err := fmt.Sscanf(peerId, "p%d", &sid); err == nil && f.trap != nil {
+		f.trap.hit(sid)
+	}
+	return f.nodes[peerId]
+}
 func (f *fakeRelay) OtherResponsiblePeers(_ context.Context, _ string) ([]peer.Peer, error) {
 	f.forwards.Add(1)
 	return nil, nil
@@ -90,6 +138,7 @@ func (f *fakeRelay) OtherResponsiblePeers(_ context.Context, _ string) ([]peer.P
 
 type fakeStream struct {
 	ctx      context.Context
+	cancel   context.CancelFunc // ends the stream context (what drpc does when the remote side closes / the conn drops)
 	in       chan *pubsubproto.PubSubMessage
 	ready    chan struct{}
 	closeCh  chan struct{}
@@ -154,7 +203,7 @@ type svcCfg struct {
 }
 
 type svcEv struct {
-	K     string   `json:"k"` // open sub unsub pub close break evict revalidate closespace setmember snap submid
+	K     string   `json:"k"` // open sub unsub pub close break evict revalidate closespace setmember snap submid pubmid
 	Sid   int      `json:"sid,omitempty"`
 	V     int      `json:"victim,omitempty"` // submid: the stream that leaves the pool while sid's Subscribe is being handled
 	Space int      `json:"space,omitempty"`
@@ -165,6 +214,7 @@ type svcEv struct {
 	Rel   bool     `json:"relayed,omitempty"`
 	Bad   bool     `json:"malformed,omitempty"`
 	B     bool     `json:"b,omitempty"`
+	Ctx   bool     `json:"ctx,omitempty"` // break: the stream leaves the pool because its CONTEXT ends (not because a write fails)
 }
 
 type svcHist struct {
@@ -195,6 +245,7 @@ type driver struct {
 	tagsSeen map[string][2]string // tag -> (space, pattern)
 	real    streampool.StreamPool // the service's own pool
 	race    *racePool             // pass-through wrapper installed in its place
+	trap    *lookupTrap           // places the end of a publisher's stream context at a lookup of its Publish handler
 }
 
 // racePool forwards everything to the service's real pool. When armed, the next AddTagsCtx call made on behalf
@@ -240,8 +291,9 @@ func (p *racePool) disarm() (fired bool) {
 const waitLong = 5 * time.Second
 
 func newDriver(c svcCfg) *driver {
-	d := &driver{mem: &fakeMembership{m: map[string]bool{}}, relay: &fakeRelay{resp: map[string]bool{}, nodes: map[string]bool{}},
-		streams: map[int]*fakeStream{}, pooled: map[int]bool{}, nextSid: 1, tagsSeen: map[string][2]string{}}
+	trap := &lookupTrap{}
+	d := &driver{mem: &fakeMembership{m: map[string]bool{}, trap: trap}, relay: &fakeRelay{resp: map[string]bool{}, nodes: map[string]bool{}, trap: trap},
+		streams: map[int]*fakeStream{}, pooled: map[int]bool{}, nextSid: 1, tagsSeen: map[string][2]string{}, trap: trap}
 	for _, r := range c.Resp {
 		d.relay.resp[spaceName(r)] = true
 	}
@@ -277,6 +329,32 @@ func (d *driver) dropFromPool(s *fakeStream, sid int) error {
 		}
 		time.Sleep(50 * time.Microsecond)
 	}
+	return nil
+}
+
+// cancelStream ends the context of stream sid — as drpc does when the remote Close packet / a connection drop is
+// processed while a frame of that stream is still being handled. The pool's write loop of the stream wakes up on the
+// finished context and removes the stream from the pool; wait until it has done so and the close hook has dropped the
+// stream's record (letCloseHookRun: decided by the lock state, never by timing). The read loop stays alive (the frames
+// already received are still handled), every later handler run of this stream gets an already-finished context.
+func (d *driver) cancelStream(sid int) error {
+	s := d.streams[sid]
+	if s == nil {
+		return nil
+	}
+	s.cancel()
+	if !d.pooled[sid] {
+		return nil
+	}
+	deadline := time.Now().Add(waitLong)
+	for streampool.VerifStreamHandle(d.real, uint32(sid)) != nil {
+		if time.Now().After(deadline) {
+			return errHang
+		}
+		time.Sleep(50 * time.Microsecond)
+	}
+	d.letCloseHookRun(sid)
+	d.pooled[sid] = false
 	return nil
 }
 
@@ -334,6 +412,7 @@ func (d *driver) shutdown() {
 		case <-s.done:
 		case <-time.After(waitLong):
 		}
+		s.cancel()
 		delete(d.streams, sid)
 	}
 	ctx, cancel := context.WithTimeout(context.Background(), waitLong)
@@ -346,8 +425,8 @@ var errHang = errors.New("hang")
 func (d *driver) open(acct int) (int, error) {
 	sid := d.nextSid
 	d.nextSid++
-	ctx := peer.CtxWithPeerId(peer.CtxWithIdentity(context.Background(), accounts[acct].identity), fmt.Sprintf("p%d", sid))
-	s := &fakeStream{ctx: ctx, in: make(chan *pubsubproto.PubSubMessage), ready: make(chan struct{}),
+	ctx, cancel := context.WithCancel(peer.CtxWithPeerId(peer.CtxWithIdentity(context.Background(), accounts[acct].identity), fmt.Sprintf("p%d", sid)))
+	s := &fakeStream{ctx: ctx, cancel: cancel, in: make(chan *pubsubproto.PubSubMessage), ready: make(chan struct{}),
 		closeCh: make(chan struct{}), done: make(chan struct{})}
 	d.streams[sid] = s
 	d.pooled[sid] = true
@@ -581,7 +660,10 @@ func (g *gen) svcCase(h svcHist) {
 				evT = append(evT, vlib.App("EUnsub", vlib.N(uint64(e.Sid)), vlib.N(uint64(e.Space)), strsTerm(pats)))
 			}
 			obT = append(obT, ob)
-		case "pub":
+		case "pub", "pubmid":
+			// "pubmid": the publisher's stream context ends while this frame — already read — is being handled: at the
+			// first lookup the handler makes on the publisher's behalf (CheckMember / IsResponsibleNode), or right after
+			// the handler if it makes none. The stream leaves the pool (close hook included), its read loop stays.
 			p := &pubsubproto.Publish{SpaceId: space, Topic: topic, MsgId: make([]byte, 16), Payload: []byte("x"),
 				Signature: []byte("sig"), TimestampMilli: 1, Relayed: e.Rel}
 			if e.Bad {
@@ -591,8 +673,27 @@ func (g *gen) svcCase(h svcHist) {
 				p.Identity = accounts[e.Claim-1].identity
 			}
 			before := d.relay.forwards.Load()
-			if d.feed(e.Sid, &pubsubproto.PubSubMessage{Content: &pubsubproto.PubSubMessage_Publish{Publish: p}}) != nil || d.flush() != nil {
-				hang("pub")
+			var goneErr error
+			if e.K == "pubmid" {
+				sid := e.Sid
+				d.trap.arm(sid, func() { goneErr = d.cancelStream(sid) })
+			}
+			ferr := d.feed(e.Sid, &pubsubproto.PubSubMessage{Content: &pubsubproto.PubSubMessage_Publish{Publish: p}})
+			if e.K == "pubmid" {
+				if d.trap.disarm() {
+					g.w.Stat("svc.pubmid.at_lookup")
+				} else if ferr == nil {
+					g.w.Stat("svc.pubmid.after_handler")
+					// a Status reply already queued for the publisher is written before its stream goes away
+					if d.streams[e.Sid] != nil && d.pooled[e.Sid] && d.flush() != nil {
+						hang("pubmid flush")
+						return
+					}
+					goneErr = d.cancelStream(e.Sid)
+				}
+			}
+			if ferr != nil || goneErr != nil || d.flush() != nil {
+				hang(e.K)
 				return
 			}
 			got := d.collect()
@@ -624,10 +725,17 @@ func (g *gen) svcCase(h svcHist) {
 			if len(deliv) > 0 {
 				delivered = true
 				g.w.Stat("svc.pub.delivered")
+				if e.K == "pubmid" {
+					g.w.Stat("svc.pubmid.delivered")
+				}
 			} else {
 				g.w.Stat("svc.pub.not_delivered")
 			}
-			evT = append(evT, vlib.App("EPub", vlib.N(uint64(e.Sid)), vlib.N(uint64(e.Space)), strTerm(topic),
+			ctor := "EPub"
+			if e.K == "pubmid" {
+				ctor = "EPubMid"
+			}
+			evT = append(evT, vlib.App(ctor, vlib.N(uint64(e.Sid)), vlib.N(uint64(e.Space)), strTerm(topic),
 				vlib.N(uint64(e.Claim)), vlib.Bool(e.Rel), vlib.Bool(!e.Bad)))
 		case "close":
 			if s := d.streams[e.Sid]; s != nil {
@@ -644,7 +752,16 @@ func (g *gen) svcCase(h svcHist) {
 			evT = append(evT, vlib.App("EClose", vlib.N(uint64(e.Sid))))
 			obT = append(obT, "ONone")
 		case "break":
-			if s := d.streams[e.Sid]; s != nil && d.pooled[e.Sid] {
+			if s := d.streams[e.Sid]; s != nil && e.Ctx {
+				// the stream context ends: the write loop notices and removes the stream; later frames of this
+				// stream are handled with a finished context
+				g.w.Stat("svc.break.ctx")
+				if d.cancelStream(e.Sid) != nil {
+					hang("break (stream with a finished context never left the pool)")
+					return
+				}
+				d.awaitNoRecord(e.Sid)
+			} else if s != nil && d.pooled[e.Sid] {
 				// wait until the pool has dropped the stream and the close hook has run
 				if d.dropFromPool(s, e.Sid) != nil {
 					hang("break (stream never left the pool)")
@@ -853,11 +970,14 @@ func (g *gen) genService(r *vlib.Rand, thorough bool, budget int) {
 				case y < 10:
 					e.Topic = fmt.Sprintf("acc/x/@%d", acctOf[sid]) // own namespace
 				}
+				if rr.Chance(1, 8) {
+					e.K = "pubmid" // the publisher's stream goes away while the frame is handled
+				}
 				evs = append(evs, e)
 			case x < 79:
 				evs = append(evs, svcEv{K: "close", Sid: anySid()})
 			case x < 82:
-				evs = append(evs, svcEv{K: "break", Sid: anySid()})
+				evs = append(evs, svcEv{K: "break", Sid: anySid(), Ctx: rr.Chance(1, 2)})
 			case x < 86:
 				a := rr.Intn(3)
 				sp := rr.Intn(2)
@@ -1095,6 +1215,168 @@ func (g *gen) genServiceCloseRace(r *vlib.Rand, thorough bool, budget int) {
 		evs = append(evs, svcEv{K: "closespace", Space: 0}, svcEv{K: "closespace", Space: 1}, svcEv{K: "snap"},
 			svcEv{K: "pub", Sid: publisher, Space: 0, Topic: "a/b", Claim: acctOf[publisher] + 1})
 		g.w.Stat("svc.closerace.histories")
+		g.svcCase(svcHist{Cfg: c, Evs: evs})
+	}
+}
+
+// genServicePublisherGone: delivery must not depend on the PUBLISHER's stream staying alive once its frame was read.
+// 2-4 streams hold patterns (shared sets, two spaces); a publisher — a member with no interest, a member holding the
+// matching pattern itself, a responsible node relaying, a stream that already left the pool (write failure or finished
+// context) — sends a Publish and goes away while it is handled ("pubmid": its context ends at the first lookup of the
+// handler, else right after it); the frame is an accepted one or one rejected by an ingress check (then nobody may get
+// it, no token is used, a Status sent before the loss still arrives). After each: publishes of a healthy publisher on
+// matching / non-matching topics and a snapshot (the lost publisher is gone from all three views, everybody else is
+// served as before); the lost stream publishes AGAIN (read loop alive, context finished, not pooled: still a valid member
+// publish) and tries to subscribe (nothing may be registered); finally the holders withdraw, the last snapshot is empty.
+func (g *gen) genServicePublisherGone(r *vlib.Rand, thorough bool, budget int) {
+	ensureAccounts(3)
+	n := 40 * budget
+	if thorough {
+		n = 600 * budget
+	}
+	patSets := [][]string{{"a/>"}, {"a/*"}, {">"}, {"a/b"}, {"a/>", "b/c"}, {"*/b", "a/*"}, {"a/>", "a/*", ">"}, {"acc/>"}}
+	topics := []string{"a/b", "a/c", "b/c", "a", "a/b/c"}
+	for i := 0; i < n; i++ {
+		rr := r.Fork(uint64(i))
+		c := svcCfg{MaxSpace: 100, MaxStream: 1000, Burst: []int{1000, 1000, 2}[rr.Intn(3)], Resp: []int{0, 1}, Accounts: 3}
+		var evs []svcEv
+		nOpen := 0
+		acctOf := map[int]int{}
+		open := func() int {
+			nOpen++
+			acctOf[nOpen] = rr.Intn(3)
+			evs = append(evs, svcEv{K: "open", Acct: acctOf[nOpen]})
+			return nOpen
+		}
+		for a := 0; a < 3; a++ {
+			evs = append(evs, svcEv{K: "setmember", Space: 0, Acct: a, B: true})
+			if a < 2 {
+				evs = append(evs, svcEv{K: "setmember", Space: 1, Acct: a, B: true})
+			}
+		}
+		healthy := open()
+		node := open()
+		c.Nodes = []int{node}
+		nHold := 2 + rr.Intn(3)
+		var holders []int
+		shared := patSets[rr.Intn(len(patSets))]
+		for h := 0; h < nHold; h++ {
+			sid := open()
+			holders = append(holders, sid)
+			ps := shared
+			if rr.Chance(1, 3) {
+				ps = patSets[rr.Intn(len(patSets))]
+			}
+			evs = append(evs, svcEv{K: "sub", Sid: sid, Space: 0, Pats: ps})
+			if rr.Chance(1, 3) {
+				evs = append(evs, svcEv{K: "sub", Sid: sid, Space: 1, Pats: shared})
+			}
+		}
+		probe := func() {
+			for _, tp := range topics {
+				if rr.Chance(1, 2) {
+					evs = append(evs, svcEv{K: "pub", Sid: healthy, Space: 0, Topic: tp, Claim: acctOf[healthy] + 1})
+				}
+			}
+			evs = append(evs, svcEv{K: "snap"})
+		}
+		pickTopic := func(a int) string {
+			if rr.Chance(1, 6) {
+				return fmt.Sprintf("acc/x/@%d", a) // own namespace
+			}
+			return topics[rr.Intn(len(topics))]
+		}
+		probe()
+		rounds := 1 + rr.Intn(3)
+		for k := 0; k < rounds; k++ {
+			var pubSid int
+			rel := false
+			switch rr.Intn(6) {
+			case 0: // a responsible node relays and its stream goes away
+				if k == 0 {
+					pubSid, rel = node, true
+				} else {
+					pubSid = open()
+				}
+			case 1: // one of the holders publishes (it matches its own publish) and goes away
+				pubSid = holders[rr.Intn(len(holders))]
+			case 2: // the publisher is subscribed to the pattern as well
+				pubSid = open()
+				evs = append(evs, svcEv{K: "sub", Sid: pubSid, Space: 0, Pats: shared})
+			case 3: // the publisher already left the pool (read loop alive), by a write failure or a finished context
+				pubSid = open()
+				evs = append(evs, svcEv{K: "break", Sid: pubSid, Ctx: rr.Chance(1, 2)})
+			default:
+				pubSid = open()
+			}
+			a := acctOf[pubSid]
+			e := svcEv{K: "pubmid", Sid: pubSid, Space: 0, Topic: pickTopic(a), Claim: a + 1, Rel: rel}
+			switch rr.Intn(12) { // a frame rejected by one ingress check, with the same loss of the stream
+			case 0:
+				e.Topic = "a//b"
+			case 1:
+				e.Claim = (a+1)%3 + 1
+			case 2:
+				e.Bad = true
+			case 3:
+				e.Space = 2 // not responsible
+			case 4:
+				e.Topic = fmt.Sprintf("acc/x/@%d", (a+1)%3) // someone else's namespace
+			case 5:
+				e.Space = 1 // account 2 is not a member there
+			case 6:
+				if !rel {
+					e.Rel = true // relayed by a stream that is not a node
+				}
+			}
+			if rr.Chance(1, 4) { // an ordinary publish first (uses a token; both must be delivered)
+				e0 := e
+				e0.K = "pub"
+				evs = append(evs, e0)
+			}
+			evs = append(evs, e)
+			probe()
+			// the lost stream's read loop is alive: what it sends now is handled with a finished context
+			if rr.Chance(2, 3) {
+				evs = append(evs, svcEv{K: "pub", Sid: pubSid, Space: 0, Topic: topics[rr.Intn(len(topics))], Claim: a + 1, Rel: rel})
+			}
+			if rr.Chance(1, 3) {
+				evs = append(evs, svcEv{K: "sub", Sid: pubSid, Space: 0, Pats: shared}, svcEv{K: "snap"})
+			}
+			if rr.Chance(1, 3) {
+				evs = append(evs, svcEv{K: "pubmid", Sid: pubSid, Space: 0, Topic: topics[rr.Intn(len(topics))], Claim: a + 1, Rel: rel})
+			}
+			if rr.Chance(1, 2) {
+				evs = append(evs, svcEv{K: "close", Sid: pubSid})
+			}
+			live := holders[:0:0]
+			for _, h := range holders {
+				if h != pubSid {
+					live = append(live, h)
+				}
+			}
+			holders = live
+			if len(holders) == 0 {
+				break
+			}
+		}
+		for _, idx := range rr.Perm(len(holders)) {
+			h := holders[idx]
+			switch rr.Intn(4) {
+			case 0:
+				evs = append(evs, svcEv{K: "unsub", Sid: h, Space: 0}, svcEv{K: "unsub", Sid: h, Space: 1})
+			case 1:
+				evs = append(evs, svcEv{K: "close", Sid: h})
+			case 2:
+				evs = append(evs, svcEv{K: "break", Sid: h, Ctx: true})
+			default:
+				evs = append(evs, svcEv{K: "pubmid", Sid: h, Space: 0, Topic: topics[rr.Intn(len(topics))], Claim: acctOf[h] + 1})
+			}
+			probe()
+		}
+		evs = append(evs, svcEv{K: "closespace", Space: 0}, svcEv{K: "closespace", Space: 1}, svcEv{K: "snap"},
+			svcEv{K: "pub", Sid: healthy, Space: 0, Topic: "a/b", Claim: acctOf[healthy] + 1})
+		g.w.Stat("svc.pubgone.histories")
 		g.svcCase(svcHist{Cfg: c, Evs: evs})
 	}
 }
